@@ -107,6 +107,7 @@ package io
 //@ func (*Writer) processBlock
 //@   mode int
 //@   props C01 C04 C07 C08 C17
+//@   atcall encodingTask).encode arg0.currentBlockID == old(this.blockID) + taskID + 1                              #batch-ids-are-consecutive @C07
 //@   requires this.repW() && this.buffersOK() && this.closed == 0
 //@   assume this.blockID <= 2000000000
 //@   ensures this.repW()                                                                                           #rep
@@ -121,10 +122,10 @@ package io
 //@   panics this.obs.ofailed || old(this.obs.oclosed)                                                              #header-write-may-panic
 //@   modifies this.available, this.blockID, this.initialized, this.buffers[*], this.obs.wbits, this.obs.ofailed, this.obs.tapeV, this.obs.tapeW, this.obs.plain, "A!Int"
 //@   loop 1 invariant this.repW() && 0 <= taskID && taskID <= nbTasks && nbTasks <= this.jobs && len(results) == nbTasks && len(jobsPerTask) >= nbTasks && tasks == taskID && this.closed == 0 && this.obs.oclosed == old(this.obs.oclosed) && (old(this.obs.ofailed) ==> this.obs.ofailed)
-//@   loop 1 invariant this.obs.wbits >= old(this.obs.wbits) && this.available + off == old(this.available) && 0 <= off && firstID == old(this.blockID) && firstID != 0 - 1 && this.available <= (nbTasks - taskID)*this.blockSize && (off == taskID*this.blockSize || this.available == 0) && this.closing == old(this.closing) && this.finalized == old(this.finalized) && this.initialized == loopentry(this.initialized)
+//@   loop 1 invariant this.obs.wbits >= old(this.obs.wbits) && this.available + off == old(this.available) && 0 <= off && old(this.blockID) != 0 - 1 && this.available <= (nbTasks - taskID)*this.blockSize && (off == taskID*this.blockSize || this.available == 0) && this.closing == old(this.closing) && this.finalized == old(this.finalized) && this.initialized == loopentry(this.initialized)
 //@   loop 1 invariant forall k :: 0 <= k && k < this.jobs ==> (len(this.buffers[k].Buf) == 0 || len(this.buffers[k].Buf) >= this.blockSize) && (k*this.blockSize <= old(this.available) ==> len(this.buffers[k].Buf) >= this.blockSize)
 //@   loop 1 invariant forall k :: taskID <= k && k < nbTasks ==> results[k].err == nil
-//@   loop 1 invariant (forall k :: 0 <= k && k < taskID ==> results[k].err == nil) ==> this.blockID == firstID + taskID && this.obs.plain == old(this.obs.plain) + off
+//@   loop 1 invariant (forall k :: 0 <= k && k < taskID ==> results[k].err == nil) ==> this.blockID == old(this.blockID) + taskID && this.obs.plain == old(this.obs.plain) + off
 //@   loop 1 invariant forall k :: 0 <= k && k < taskID ==> (results[k].err != nil ==> this.blockID == 0 - 1)
 //@   loop 1 modifies this.available, this.blockID, results[*], listeners[*], this.buffers[*], this.obs.wbits, this.obs.ofailed, this.obs.tapeV, this.obs.tapeW, this.obs.plain, "A!Int"
 //@   loop 1 decreases nbTasks - taskID
@@ -270,6 +271,7 @@ package io
 //@ func (*Reader) processBlock
 //@   mode int
 //@   props C02 C03 C05 C07 C08 C09 C11
+//@   atcall decodingTask).decode arg0.currentBlockID == firstID + taskID + 1                                        #batch-ids-are-consecutive @C07
 //@   requires this.repR() && this.available == 0
 //@   requires has(this.ctx, "from") ==> istype(this.ctx["from"], "int")
 //@   requires has(this.ctx, "to") ==> istype(this.ctx["to"], "int")
@@ -287,9 +289,9 @@ package io
 //@   loop 1 invariant this.repR() && decoded == 0 && 1 <= nbTasks && nbTasks <= this.jobs && len(jobsPerTask) >= nbTasks && this.blockID != 0 - 1 && this.available == 0 && this.closed == old(this.closed) && bufSize >= this.blockSize && blkSize >= 1024 && blkSize <= 1207959552
 //@   loop 1 assume this.blockID <= 2000000000
 //@   loop 1 modifies this.blockID, this.buffers[*], this.ibs.rbitsI, this.ibs.ieof, this.ibs.aligned, this.ibs.ipos, "A!Int", "A!Iface"
-//@   loop 2 invariant this.repR() && 0 <= taskID && taskID <= nbTasks && nbTasks <= this.jobs && len(results) == nbTasks && len(jobsPerTask) >= nbTasks && firstID != 0 - 1 && this.available == 0 && this.closed == old(this.closed) && decoded == 0 && bufSize >= this.blockSize
+//@   loop 2 invariant this.repR() && 0 <= taskID && taskID <= nbTasks && nbTasks <= this.jobs && len(results) == nbTasks && len(jobsPerTask) >= nbTasks && loopentry(this.blockID) != 0 - 1 && this.available == 0 && this.closed == old(this.closed) && decoded == 0 && bufSize >= this.blockSize
 //@   loop 2 invariant forall k :: 0 <= k && k < taskID ==> 0 <= results[k].decoded && results[k].decoded <= len(results[k].data) && (results[k].skipped ==> results[k].decoded == 0 && results[k].err == nil) && len(this.buffers[k].Buf) >= this.blockSize
-//@   loop 2 invariant (forall k :: 0 <= k && k < taskID ==> results[k].err == nil && (results[k].skipped || results[k].decoded > 0)) ==> this.blockID == firstID + taskID
+//@   loop 2 invariant (forall k :: 0 <= k && k < taskID ==> results[k].err == nil && (results[k].skipped || results[k].decoded > 0)) ==> this.blockID == loopentry(this.blockID) + taskID
 //@   loop 2 invariant forall k :: 0 <= k && k < taskID ==> ((results[k].err != nil || (!results[k].skipped && results[k].decoded == 0)) ==> this.blockID == 0 - 1)
 //@   loop 2 modifies this.blockID, results[*], listeners[*], this.buffers[*], this.ibs.rbitsI, this.ibs.ieof, this.ibs.aligned, this.ibs.ipos, "A!Int"
 //@   loop 2 decreases nbTasks - taskID
